@@ -22,6 +22,13 @@ type gv struct {
 type c15In struct {
 	A gv `json:"a"`
 	B gv `json:"b"`
+	// P (two values that are EQUAL under C15 but arrive in different Go kinds, e.g. int 1 / float64 1 / uint8 1, or a
+	// number and its decimal text): the ORDER BY comparator is then observed on the two-key rows {g:P[0], k:a},
+	// {g:P[1], k:b} ordered by g (PDesc: descending) and then k. A tie on the earlier key hands the decision to the
+	// later key, so the expected answer is still sort_expect a b: the comparator's tie test must be the C15
+	// comparison, not Go's == on interfaces.
+	P     []gv `json:"p,omitempty"`
+	PDesc bool `json:"pdesc,omitempty"`
 }
 
 type propC15 struct{}
@@ -35,7 +42,7 @@ func (propC15) InputType() string   { return "(gval * gval * (string * string))"
 func (propC15) ObsType() string     { return "(Z * (Z * Z))" }
 func (propC15) Exhaustive(string) bool { return true }
 func (propC15) Rule() string {
-	return "all ordered pairs over a finite domain: every Go numeric kind x boundary values (min, -1, 0, 1, max, 2^53 edge, fractions) + strings (empty, numeric-looking, prefixes) + nil/bool; a pair is non-trivial when the two operands differ in kind or value; distinct = distinct (a,b)"
+	return "all ordered pairs over a finite domain: every Go numeric kind x boundary values (min, -1, 0, 1, max, 2^53 edge, fractions) + strings (empty, numeric-looking, prefixes) + nil/bool; a pair is non-trivial when the two operands differ in kind or value; distinct = distinct (a,b); plus a multi-key stream: pairs over a sub-domain observed through the ORDER BY comparator behind an earlier key on which the two rows tie by value in different Go kinds (int/uint8/float32/float64 of one value, a number and its decimal text), both directions of the earlier key"
 }
 
 func intVals(lo, hi *big.Int) []string {
@@ -136,11 +143,64 @@ func (propC15) Generate(r *Rand, tier string) []Case {
 	var out []Case
 	for _, a := range d {
 		for _, b := range d {
-			out = append(out, Case{Input: c15In{a, b}, Tags: []string{"pair:" + kindClass(a.K) + "/" + kindClass(b.K)},
+			out = append(out, Case{Input: c15In{A: a, B: b}, Tags: []string{"pair:" + kindClass(a.K) + "/" + kindClass(b.K)},
 				Nontrivial: a != b})
 		}
 	}
+	// multi-key stream: the pair decides behind an earlier key that ties ACROSS kinds (or, as a control, within one)
+	sub := c15SubDomain()
+	reps := 1
+	if tier == "thorough" {
+		reps = 4
+	}
+	for rep := 0; rep < reps; rep++ {
+		for _, a := range sub {
+			for _, b := range sub {
+				cls := Pick(r, c15TieClasses)
+				p, q := Pick(r, cls), Pick(r, cls)
+				tag := "tie:cross-kind"
+				if p.K == q.K {
+					tag = "tie:same-kind"
+				}
+				out = append(out, Case{Input: c15In{A: a, B: b, P: []gv{p, q}, PDesc: r.Bool()},
+					Tags: []string{"multikey", tag, "pair:" + kindClass(a.K) + "/" + kindClass(b.K)}, Nontrivial: a != b})
+			}
+		}
+	}
 	return out
+}
+
+// c15TieClasses: each class holds spellings of ONE value in different Go kinds; any two members compare equal under C15
+// (numbers by value, a number against a string by the number's decimal text).
+var c15TieClasses = [][]gv{
+	{{"int", "1"}, {"int8", "1"}, {"uint8", "1"}, {"int64", "1"}, {"uint64", "1"}, {"float64", "0x1p+00"}, {"float32", "0x1p+00"}, {"string", "1"}},
+	{{"int", "-2"}, {"int16", "-2"}, {"float64", "-0x1p+01"}, {"int32", "-2"}, {"string", "-2"}},
+	{{"int", "0"}, {"uint", "0"}, {"uint16", "0"}, {"float64", "0x0p+00"}, {"string", "0"}},
+	{{"float64", "0x1.8p+00"}, {"float32", "0x1.8p+00"}, {"string", "1.5"}},
+	{{"int", "7"}, {"uint32", "7"}, {"float64", "0x1.cp+02"}, {"string", "7"}},
+	{{"int64", "9007199254740992"}, {"uint64", "9007199254740992"}, {"float64", "0x1p+53"}, {"int", "9007199254740992"}},
+	{{"string", "abc"}, {"string", "abc"}},
+}
+
+// c15SubDomain: the values that decide behind the tying key (every kind class, ties and non-ties among them)
+func c15SubDomain() []gv {
+	return []gv{{"int", "1"}, {"int", "-1"}, {"uint8", "1"}, {"uint64", "18446744073709551615"}, {"int64", "2"},
+		{"float64", "0x1p+00"}, {"float64", "0x1.8p+00"}, {"float32", "0x1p+00"}, {"float64", "0x1.4p+03"},
+		{"string", "1"}, {"string", "10"}, {"string", "9"}, {"string", "a"}, {"string", ""}, {"nil", ""}, {"bool", "true"}}
+}
+
+func c15SameTieClass(p, q gv) bool {
+	for _, cls := range c15TieClasses {
+		hp, hq := false, false
+		for _, m := range cls {
+			hp = hp || m == p
+			hq = hq || m == q
+		}
+		if hp && hq {
+			return true
+		}
+	}
+	return false
 }
 
 func kindClass(k string) string {
@@ -245,6 +305,24 @@ func (propC15) Observe(raw json.RawMessage) (Observed, error) {
 	if err != nil {
 		return Observed{}, err
 	}
+	var pa, pb any
+	havePrefix := false
+	if in.P != nil {
+		if len(in.P) != 2 {
+			return Observed{}, fmt.Errorf("p must hold two values")
+		}
+		if !c15SameTieClass(in.P[0], in.P[1]) {
+			// a replay file cannot smuggle in an earlier key that does not tie: only the listed spellings of one value
+			return Observed{}, fmt.Errorf("p: %v and %v are not two listed spellings of one value", in.P[0], in.P[1])
+		}
+		if pa, err = in.P[0].goValue(); err != nil {
+			return Observed{}, err
+		}
+		if pb, err = in.P[1].goValue(); err != nil {
+			return Observed{}, err
+		}
+		havePrefix = true
+	}
 	res := 99
 	func() {
 		defer func() {
@@ -263,8 +341,13 @@ func (propC15) Observe(raw json.RawMessage) (Observed, error) {
 					out = 2
 				}
 			}()
-			less, err := genql.Compare([]any{map[string]any{"k": a}, map[string]any{"k": b}}, 0, 1,
-				genql.OrderByDefinition{{Key: "k", Value: asc}})
+			rowA, rowB := map[string]any{"k": a}, map[string]any{"k": b}
+			def := genql.OrderByDefinition{{Key: "k", Value: asc}}
+			if havePrefix {
+				rowA["g"], rowB["g"] = pa, pb
+				def = genql.OrderByDefinition{{Key: "g", Value: !in.PDesc}, {Key: "k", Value: asc}}
+			}
+			less, err := genql.Compare([]any{rowA, rowB}, 0, 1, def)
 			if err != nil {
 				out = 2
 			} else if less {
